@@ -18,6 +18,7 @@ import (
 
 	"verif/harness/internal/h"
 	"verif/harness/internal/quiet"
+	"verif/harness/internal/sched"
 )
 
 var pool = []string{"node-b", "node c", "n\td", "alive: x", "ünï", "#hash", "leave", "b", "B", "node-b ", "x/y:1"}
@@ -44,6 +45,8 @@ func (r *reapCtl) ReconnectTimeout(m *serf.Member, timeout time.Duration) time.D
 	return timeout
 }
 
+var raceMode bool     // C16: the two steps after {"a":"par"} run concurrently under the cooperative scheduler (handlers instrumented)
+var raceBudget int
 var slowConsumer bool // C16: no coalescing, application channel of capacity 1 that nobody reads until the end
 var pipeline bool   // C16 mode: coalescers + snapshot on, observe emitted (log) vs received (EventCh)
 var scratchDir string
@@ -88,6 +91,10 @@ func newRun(nn int, rng *rand.Rand) *run {
 			c.UserCoalescePeriod = 40 * time.Millisecond
 			c.UserQuiescentPeriod = 20 * time.Millisecond
 			c.SnapshotPath = fmt.Sprintf("%s/snap-%d-%d", scratchDir, rng.Int63(), time.Now().UnixNano())
+			if raceMode {
+				c.CoalescePeriod, c.QuiescentPeriod, c.UserCoalescePeriod, c.UserQuiescentPeriod = 0, 0, 0, 0
+				c.ReapInterval = time.Hour
+			}
 			if slowConsumer {
 				c.CoalescePeriod, c.QuiescentPeriod, c.UserCoalescePeriod, c.UserQuiescentPeriod = 0, 0, 0, 0
 				small = make(chan serf.Event, 1)
@@ -502,6 +509,8 @@ func main() {
 	in := flag.String("in", "", "schedules ndjson")
 	out := flag.String("out", "", "trace ndjson")
 	nn := flag.Int("nn", 3, "number of names (self included)")
+	flag.BoolVar(&raceMode, "race", false, "C16: with -pipeline, run the two steps after the par marker concurrently under every schedule")
+	flag.IntVar(&raceBudget, "racebudget", 40, "schedules per program in -race mode")
 	flag.BoolVar(&slowConsumer, "slow", false, "C16: with -pipeline, no coalescing and a capacity-1 application channel read only at the end")
 	flag.BoolVar(&pipeline, "pipeline", false, "C16: observe the event pipeline (coalescing + snapshot on)")
 	flag.StringVar(&scratchDir, "dir", os.TempDir(), "scratch directory for snapshots")
@@ -513,6 +522,14 @@ func main() {
 	tr, err := h.NewTracer(*out)
 	if err != nil {
 		h.Die("%v", err)
+	}
+	if raceMode {
+		runRaces(scheds, *nn, tr)
+		if err := tr.Close(); err != nil {
+			h.Die("%v", err)
+		}
+		fmt.Println("ok")
+		return
 	}
 	for _, s := range scheds {
 		rng := rand.New(rand.NewSource(h.Seed()*1000003 + int64(s.ID)))
@@ -530,4 +547,107 @@ func main() {
 		h.Die("%v", err)
 	}
 	fmt.Println("ok")
+}
+
+// ---- C16 handler races: the membership handlers of serf.go are yield-instrumented; two inputs about one member are
+// delivered by two threads under every schedule with at most two preemptions (budgeted), the event pipeline runs freely.
+
+// raceStep delivers one input without any waiting (the scheduler must not see the thread block).
+func (r *run) raceStep(st h.Step) {
+	switch st.A() {
+	case "mljoin":
+		x := st.Int("x")
+		r.n.Ev.NotifyJoin(r.n.MLNode(r.names[x], r.trs[x], nil))
+	case "mlleave":
+		x := st.Int("x")
+		r.n.Ev.NotifyLeave(r.n.MLNode(r.names[x], r.trs[x], nil))
+	case "msg":
+		name := r.names[st.Int("x")]
+		lt := uint64(st.Int("lt"))
+		if st.Int("ty") == 1 {
+			r.n.Del.NotifyMsg(quiet.Encode(quiet.TJoin, quiet.MsgJoin{LTime: lt, Node: name}))
+		} else {
+			r.n.Del.NotifyMsg(quiet.Encode(quiet.TLeave, quiet.MsgLeave{LTime: lt, Node: name, Prune: st.Int("prune") == 1}))
+		}
+	default:
+		h.Die("race step %q not supported", st.A())
+	}
+}
+
+// drainToMarker reads the application channel up to a marker pushed through the head of the pipeline.
+func (r *run) drainToMarker() [][]int {
+	r.mark++
+	name := "__verif_marker_" + strconv.Itoa(r.mark)
+	r.n.Serf.VerifInnerEventCh() <- serf.UserEvent{Name: name}
+	out := [][]int{}
+	deadline := time.After(10 * time.Second)
+	for {
+		select {
+		case e := <-r.n.Events:
+			switch v := e.(type) {
+			case serf.UserEvent:
+				if v.Name == name {
+					return out
+				}
+			case serf.MemberEvent:
+				k := map[serf.EventType]int{serf.EventMemberJoin: 1, serf.EventMemberLeave: 2, serf.EventMemberFailed: 3,
+					serf.EventMemberUpdate: 4, serf.EventMemberReap: 5}[v.Type]
+				for _, m := range v.Members {
+					out = append(out, []int{r.id(m.Name), k})
+				}
+			}
+		case <-deadline:
+			h.Die("event pipeline did not deliver the marker within 10s")
+		}
+	}
+}
+
+func runRaces(scheds []h.Schedule, nn int, tr *h.Tracer) {
+	traceID := 0
+	total := 0
+	for _, s := range scheds {
+		s := s
+		split := -1
+		for i, st := range s.Steps {
+			if st.A() == "par" {
+				split = i
+			}
+		}
+		if split < 0 || len(s.Steps) != split+3 {
+			h.Die("race schedule %d: need a par marker followed by exactly two steps", s.ID)
+		}
+		sc := func(sch *sched.S) (func(sched.Step), func(sched.Result)) {
+			rng := rand.New(rand.NewSource(h.Seed()*1000003 + int64(s.ID)))
+			r := newRun(nn, rng)
+			serf.VerifYield = sch.Yield
+			serf.VerifYieldBlocked = sch.YieldBlocked
+			tr.Reset(traceID, map[string]interface{}{"prog": s.ID})
+			traceID++
+			for _, st := range s.Steps[:split] { // sequential prefix, from this (unmanaged) goroutine: yields return at once
+				r.raceStep(st)
+				tr.Step(st, map[string]interface{}{"em": r.emittedSince(), "rc": r.drainToMarker(), "drained": false})
+			}
+			a, b := s.Steps[split+1], s.Steps[split+2]
+			sch.Go("a", func() { r.raceStep(a) })
+			sch.Go("b", func() { r.raceStep(b) })
+			return func(sched.Step) {}, func(res sched.Result) {
+				serf.VerifYield = func(string) {}
+				serf.VerifYieldBlocked = func(string) {}
+				if !res.Deadlock && !res.Hung {
+					st := make([]int, len(r.names))
+					rc := r.drainToMarker()
+					for _, m := range r.n.Serf.VerifDump().Members {
+						if i := r.id(m.Name); i < len(st) {
+							st[i] = m.Status
+						}
+					}
+					tr.Step(h.Step{"a": "race", "p": a, "q": b}, map[string]interface{}{"em": r.emittedSince(), "rc": rc, "drained": true, "st": st})
+				}
+				_ = r.n.Serf.Shutdown()
+			}
+		}
+		st := sched.Explore(sc, 2, raceBudget, h.Seed(), false)
+		total += st.Schedules
+	}
+	fmt.Printf("{\"schedules\": %d}\n", total)
 }
